@@ -1,18 +1,5 @@
-\* family "frames", quick: every status-line kind x header set x Content-Length declaration x body length,
-\* closed at every token boundary / line edge / every byte of the status line, stalls on the 200 streams
-CONSTANTS SLKinds = {1, 2, 3, 4, 5}
-          HdrKinds = {1, 2, 3}
-          MaxHdrs = 1
-          CLVals <- CLValsQuick
-          CLNames = {0}
-          CLDups <- DupsQuick
-          MaxBody = 3
-          BodyByPos = TRUE
-          BodyAlpha = {120}
-          FragAll = {"sl", "end", "h", "cl"}
-          FragDepth = 1
-          StallSL = {1}
-          StallFrags = FALSE
+\* quick: families FramesQuick (status line x header x Content-Length x body length, every truncation point, stalls on the 200 streams) and BodiesQuick (every body over {x,CR,LF} up to 4 bytes); bounds are the records in HttpFraming.tla
+CONSTANTS Fams <- FamsQuick
           Conforming = {"enforce", "truncate", "strict"}
           Others = {"as_built", "m_status200", "m_short", "m_bodyterm", "m_notimeout", "m_panic", "m_drophdr", "m_halfheader"}
 INIT Init
